@@ -121,6 +121,7 @@ impl PartialEq for {T} {{
         sx.append(f"impl Flat for {T} {{ fn flat(&self, out: &mut Vec<Sym>) {{ self.v().flat(out); }} }}")
         sx.append(f"impl PartialEq for {V} {{ fn eq(&self, o: &{V}) -> bool {{ let mut a = vec![]; let mut b = vec![]; self.flat(&mut a); o.flat(&mut b); decide(\"eq\", a.into_iter().zip(b.into_iter()).collect()) }} }}")
         sx.append(f"impl PartialEq for {T} {{ fn eq(&self, o: &{T}) -> bool {{ self.v() == o.v() }} }}")
+        sx.append(f"impl IsZeroSym for {V} {{ fn zero_eqs(&self) -> Vec<(Sym, Sym)> {{ let mut a = vec![]; self.flat(&mut a); a.into_iter().map(|x| (x, fzero())).collect() }} }}")
         u.symx_parts.append("\n".join(sx))
         self.declared.append(T)
 
@@ -223,6 +224,9 @@ impl PartialEq for {T} {{
                 for a_, b_ in f['kw'].get('subst', ()):
                     sig = sig.replace(a_, b_)
                     body = body.replace(a_, b_)
+                if f['kw'].get('sig_edit'):
+                    sig = f['kw']['sig_edit'](sig)
+                    body = re.sub(r'\bF::', T + '::', body)
                 sig = re.sub(r'\bfn\s+' + f['name'] + r'\b', 'fn real__' + f['name'], sig, count=1)
                 if not re.match(r'pub\b', sig):
                     sig = 'pub ' + sig
